@@ -2,11 +2,15 @@
 package main
 
 import (
+	"bytes"
 	"encoding/json"
 	"flag"
 	"fmt"
+	"io"
 	"io/ioutil"
 	"os"
+	"os/exec"
+	"strings"
 	"time"
 
 	"verif/harness/internal/cancel"
@@ -76,6 +80,9 @@ func main() {
 		core.Broken("unknown tier %q", env.Tier)
 	}
 	env.Self, _ = os.Executable()
+	if os.Getenv("VERIF_SUPERVISED") == "" {
+		supervise(env)
+	}
 	e, ok := engines[env.Prop]
 	if !ok {
 		core.Broken("no check for property %q", env.Prop)
@@ -130,4 +137,100 @@ func worker(args []string) {
 	}
 	fmt.Fprintf(os.Stderr, "unknown worker %q\n", args[0])
 	os.Exit(2)
+}
+
+// supervise: the engines drive the scheduler, the runner and the decorators IN this process; a panic
+// of the code under test in one of its own goroutines cannot be recovered and would take the check
+// down without a verdict. The check therefore runs in a child process. A child that dies of a Go
+// panic / fatal runtime error whose innermost non-runtime frame is taskctl's code is a crash of the
+// code under test on an input the unchanged code handles: a violation (the property cannot hold in
+// a process that died). A panic in the harness's own frames is a broken check (exit 2).
+
+func supervise(env *core.Env) {
+	cmd := exec.Command(env.Self, os.Args[1:]...)
+	cmd.Env = append(os.Environ(), "VERIF_SUPERVISED=1")
+	cmd.Stdin, cmd.Stdout = os.Stdin, os.Stdout
+	var errBuf bytes.Buffer
+	cmd.Stderr = io.MultiWriter(os.Stderr, &limited{w: &errBuf, left: 4 << 20})
+	err := cmd.Run()
+	code := 0
+	if err != nil {
+		code = 2
+		if ee, ok := err.(*exec.ExitError); ok {
+			code = ee.ExitCode()
+		}
+	}
+	txt := errBuf.String()
+	at := strings.Index(txt, "\npanic: ")
+	if at < 0 {
+		at = strings.Index(txt, "\nfatal error: ")
+	}
+	if strings.HasPrefix(txt, "panic: ") || strings.HasPrefix(txt, "fatal error: ") {
+		at = 0
+	}
+	if code == 0 || code == 1 || at < 0 {
+		os.Exit(code)
+	}
+	crash := txt[at:]
+	// innermost frame that is neither the runtime's nor the standard library's
+	owner, where := "", ""
+	seenGoroutine := false
+	for _, l := range strings.Split(crash, "\n") {
+		if strings.HasPrefix(l, "goroutine ") {
+			if seenGoroutine {
+				break // only the panicking goroutine (printed first)
+			}
+			seenGoroutine = true
+			continue
+		}
+		if !seenGoroutine || strings.HasPrefix(l, "\t") || strings.HasPrefix(l, "created by ") {
+			continue
+		}
+		switch {
+		case strings.HasPrefix(l, "github.com/taskctl/taskctl/"):
+			owner, where = "taskctl", l
+		case strings.HasPrefix(l, "verif/harness/") || strings.HasPrefix(l, "main."):
+			owner, where = "harness", l
+		}
+		if owner != "" {
+			break
+		}
+	}
+	first := strings.SplitN(strings.TrimSpace(crash), "\n", 2)[0]
+	if owner != "taskctl" {
+		fmt.Printf("CHECK-BROKEN: the check's process died (%s); innermost frame outside the runtime: %q\n", first, where)
+		os.Exit(2)
+	}
+	rep := core.NewReport(env)
+	if len(crash) > 6000 {
+		crash = crash[:6000]
+	}
+	rep.Add(core.Finding{Prop: env.Prop, Key: env.Prop + ":crash:code-under-test-panicked-inside-the-check",
+		What:   fmt.Sprintf("taskctl's code panicked while the check was driving it in-process (%s) in %s", first, where),
+		Detail: map[string]interface{}{"stderr": crash}})
+	viol, _ := rep.Conclude()
+	core.WriteEvidence(env, "exploration", map[string]interface{}{
+		"evaluations": 1, "distinct_nontrivial": 1,
+		"rule":    "the check did not complete: the process in which the engines drive taskctl's scheduler, runner and decorators died of a panic raised in taskctl's own code",
+		"samples": []interface{}{map[string]interface{}{"panic": first, "innermost_frame": where}},
+	}, []string{"a panic of the code under test inside the check's process is reported as a violation of the property being checked: nothing the property promises holds in a process that died"}, viol)
+	fmt.Printf("check %s %s seed=%d: exit 1 after %.1fs\n", env.Prop, env.Tier, env.Seed, time.Since(env.Start).Seconds())
+	os.Exit(1)
+}
+
+type limited struct {
+	w    io.Writer
+	left int
+}
+
+func (l *limited) Write(p []byte) (int, error) {
+	if l.left > 0 {
+		q := p
+		if len(q) > l.left {
+			q = q[:l.left]
+		}
+		_, _ = l.w.Write(q)
+		l.left -= len(q)
+	}
+	return len(p), nil
 }
